@@ -1,7 +1,7 @@
 """C11 — dates, times and durations on the proleptic Gregorian timeline (DESIGN §4 C11)."""
 import datetime
 import z3
-from harness.common import ob, define, parse_all, ElementPathError, err_code, XPathContext, PLAIN
+from harness.common import ob, define, parse_all, ElementPathError, err_code, XPathContext, PLAIN, L
 from harness.e2util import Queries, mval
 from verif_lib import py2smt as PS
 from elementpath import helpers
@@ -717,3 +717,34 @@ def difference_across_datetime_limits(i1: int, i2: int, ma: bool, da: bool, mb: 
     b = DateTime(y2, m2, d2)
     want = (civil_days(_astro(y1), m1, d1) - civil_days(_astro(y2), m2, d2)) * 86400 + h1 * 3600
     return (a - b).seconds == want      # adding the difference back goes through CrossHair's datetime model of fromdelta (see fromdelta_vs_civil)
+
+
+# --- added after round-4 seeded changes: the implicit timezone is applied to COPIES of the caller's values (both operand positions) ----------
+
+T_TZ = parse_all({'sub': '$z - $d', 'sub_r': '$d - $z', 'both': '($d - $z, $z - $d, $d - $d)', 'tzd': 'timezone-from-dateTime($d)', 'strd': 'string($d)'})
+
+
+@ob(budget=120, bound='a timezone-less xs:dateTime held in a variable, used as left and as right operand of a subtraction with a value in UTC, context '
+                                   'timezone from 3 offsets (chosen by the solver): the difference uses the implicit timezone every time, and afterwards the '
+                                   'caller\'s value still has no timezone',
+    funcs=['elementpath/xpath_tokens/base.py:XPathToken.get_operands', D + ':AbstractDateTime._operation'])
+def implicit_timezone_on_copies(oi: int, right_first: bool) -> bool:
+    """
+    pre: 0 <= oi <= 2
+    post: _
+    """
+    off = (300, -210, 0)[[k for k in range(3) if k == oi][0]]
+    d = DateTime(2000, 1, 1, 12, 0, 0)
+    z = DateTime(2000, 1, 1, 12, 0, 0, tzinfo=Timezone(datetime.timedelta(minutes=0)))
+    tz = Timezone(datetime.timedelta(minutes=off))
+    v = {'d': d, 'z': z}
+    order = ('sub', 'sub_r') if right_first else ('sub_r', 'sub')
+    for _ in range(2):
+        for key in order:
+            r = L(T_TZ[key].evaluate(XPathContext(item=1, variables=v, timezone=tz)))
+            want = off * 60 if key == 'sub' else -off * 60
+            if len(r) != 1 or r[0].seconds != want:
+                return False
+        if d.tzinfo is not None or L(T_TZ['tzd'].evaluate(XPathContext(item=1, variables=v))) != [] or str(d) != '2000-01-01T12:00:00':
+            return False
+    return True
